@@ -83,6 +83,29 @@ CHECKS["C20"] = dict(cat="model_checking", engine="ResourceThreads", ref="§5 C2
          "execute_cycle and every controller action/observation (state polls, Snapshot command replies, join results, retain-save counts); TLC "
          "must find an interleaving of atomic cycles that explains both streams.",
     note="OS schedules, not exhaustive on the code; liveness on the code is bounded waiting (20-30 s) under repeated clock advances")
+_ST_NOTE = ("StCore covers BOOL/SINT/INT/DINT/USINT/UINT/BYTE/WORD, arrays, IF/CASE/FOR/WHILE/EXIT (TLC integers are 32-bit); wider types "
+            "are judged by the outcome contract only; mismatches in programs containing a non-converting assignment are attributed to the listed finding")
+CHECKS["C01"] = dict(cat="model_checking", engine="StCore", ref="§5 C01",
+    tech="TLA+ StCore reference semantics (outcome classes by construction) + TLC trace validation of generated programs; wide generator judged by the outcome contract",
+    text="The reference semantics has no static-class outcome by construction; the operator x type x boundary matrix (all of it in thorough), "
+         "strict- and natural-profile random programs over the typed core run for 3 cycles with inputs and TLC validates outcome class, fault "
+         "kind and empty frame stack after every cycle; a second generator over every elementary type (64-bit, REAL, TIME, bit strings, "
+         "boundary literals, FOR loops ending at type maxima, unsigned CASE selectors, CONTINUE/REPEAT, a recursive FUNCTION probe) runs in "
+         "child processes (panic, abort, stack overflow and hang are data) and is judged by the outcome contract.",
+    note=_ST_NOTE)
+CHECKS["C02"] = dict(cat="model_checking", engine="StCore", ref="§5 C02",
+    tech="TLA+ StCore reference semantics (algebraic lemmas checked by TLC) + exact TLC trace validation of every variable after every cycle",
+    text="TLC checks the lemmas of the reference (division/modulo identity on the whole SINT square, closure and exactness of checked arithmetic "
+         "on all boundary operands, bit identities); the full operator matrix and generated programs (typed literals without redundant "
+         "type context, precedence through the real parser, short-circuit, CASE ranges, FOR/WHILE/EXIT, arrays) run on the real interpreter "
+         "and after every cycle every variable and array element must equal the reference numerically and the fault must be the reference's.",
+    note=_ST_NOTE)
+CHECKS["C03"] = dict(cat="model_checking", engine="StCore", ref="§5 C03",
+    tech="TLA+ StCore / RuntimeCycle tag invariant + TLC trace validation of the recorded tag of every storage slot",
+    text="The recorded projection carries the runtime tag of every variable and array element; TLC requires tag = declared type after every "
+         "cycle of the StCore programs, and for bound variables and counters of 9 type shapes after every cycle, I/O latch, warm/cold restart, "
+         "power cycle and access-path write of the RuntimeCycle scripts.",
+    note=_ST_NOTE)
 NOT_YET = "check not built yet in this round (see DESIGN.md build order); no claim made"
 
 
@@ -116,6 +139,7 @@ def main():
             "add_only": True,
         },
         "engines": [
+            {"name": "StCore", "path": "spec/StCore.tla", "serves_properties": ["C01", "C02", "C03"], "kind_free_text": "TLA+ reference evaluator + lemma instance + trace refinement; harness sub-commands stcore-gen / stcore-run / stwide"},
             {"name": "HirDb", "path": "spec/HirDb.tla", "serves_properties": ["C13"], "kind_free_text": "TLA+ module + MC instance + trace refinement; harness sub-commands hirdb-gen / hirdb-run"},
             {"name": "ResourceThreads", "path": "spec/ResourceThreads.tla", "serves_properties": ["C20"], "kind_free_text": "TLA+ module + MC (safety + liveness) + stream-merging trace refinement; harness sub-command resource-run"},
             {"name": "DebugControl", "path": "spec/DebugControl.tla", "serves_properties": ["C17"],
